@@ -149,10 +149,19 @@ func verifHarness_C09_converge() {
 	nInst := verifParam("instances", 2)
 	maxDeliveries := verifParam("deliveries", 6)
 	w := c9NewWorld(nInst)
-	// the instances know each other (initial push/pull when they joined)
+	// the instances know each other at the membership level; the first application-level state
+	// exchange (push/pull) of an ordered pair has either happened already or is still to come
+	// (latejoin=1): then it is one more delivery that may arrive after the claims and announcements
+	type c9Pair struct{ from, to *c9Inst }
+	var lateMerges, latePairs []c9Pair
 	for _, a := range w.insts {
 		for _, b := range w.insts {
 			if a != b {
+				if verifParam("latejoin", 0) == 1 && verifChoose("first-state-exchange", 2) == 1 {
+					lateMerges = append(lateMerges, c9Pair{a, b})
+					latePairs = append(latePairs, c9Pair{a, b})
+					continue
+				}
 				w.merge(a, b)
 			}
 		}
@@ -178,24 +187,52 @@ func verifHarness_C09_converge() {
 		in.sm.mutex.RUnlock()
 	}
 	verifAssert(len(created) == nClaims, "every-claim-registered-locally")
+	// the property presupposes that announcements reach every other instance: the instance with the
+	// newest claim must have known all others when it claimed (announcements go to the instances whose
+	// state has been merged). Older claimers may not have; their announcements are then simply not sent.
+	{
+		nw, nt := "", int64(-1)
+		for n, t := range created {
+			if t > nt {
+				nw, nt = n, t
+			}
+		}
+		for _, lp := range latePairs {
+			if lp.to.name == nw {
+				verifAssume(false)
+			}
+		}
+		if len(latePairs) > 0 {
+			verifReach("first-state-exchange-after-the-claims")
+		}
+	}
 	// deliver pending announcements in symbolic order; an announcement may be duplicated once; up to
 	// `merges` full-state syncs (push/pull) between any ordered pair may happen anywhere in between
 	mergesLeft := verifParam("merges", 0)
-	for d := 0; d < maxDeliveries+verifParam("merges", 0); d++ {
+	for d := 0; d < maxDeliveries+verifParam("merges", 0)+nInst*(nInst-1); d++ {
 		var pending []*c9Packet
 		for _, p := range w.net {
 			if p.copies == 0 {
 				pending = append(pending, p)
 			}
 		}
-		if len(pending) == 0 {
+		if len(pending) == 0 && len(lateMerges) == 0 {
 			break
 		}
 		nPairs := 0
 		if mergesLeft > 0 {
 			nPairs = nInst * (nInst - 1)
 		}
-		c := verifChoose("deliver", len(pending)+nPairs)
+		c := verifChoose("deliver", len(pending)+nPairs+len(lateMerges))
+		if c >= len(pending)+nPairs {
+			// a first state exchange that was still outstanding
+			k := c - len(pending) - nPairs
+			verifAction("first-state-exchange")
+			w.merge(lateMerges[k].from, lateMerges[k].to)
+			lateMerges = append(lateMerges[:k:k], lateMerges[k+1:]...)
+			verifQuiesce()
+			continue
+		}
 		if c >= len(pending) {
 			// state sync a -> b
 			k := c - len(pending)
@@ -224,6 +261,9 @@ func verifHarness_C09_converge() {
 		if p.copies == 0 {
 			verifAssume(false) // delivery budget too small for this path: not a completed run
 		}
+	}
+	if len(lateMerges) > 0 {
+		verifAssume(false) // every pair exchanges state eventually
 	}
 	verifQuiesce()
 	verifReach("all-announcements-delivered")
